@@ -345,7 +345,7 @@ def run(F, S, R, tier):
         ("cmp/reward-amount", F.one(VC, r"RewardVerifier::<.*>::verify$"), [r"call:.*outputs_capacity$"], [r"field:.*BlockReward\.total"], {"<": "ERR", "=": "CONT", ">": "ERR"}),
         ("cmp/reward-lock", F.one(VC, r"RewardVerifier::<.*>::verify$"), [r"call:.*CellOutput::lock$"], [r"call:.*finalize_block_reward$"], {"<": "ERR", "=": "CONT", ">": "ERR"}),
     ]
-    AR = {"cmp/timestamp-new": ([], ["op:add"]), "cmp/number": ([], ["op:add", "lit:1"])}
+    AR = {"cmp/timestamp-new": ([], ["op:add"]), "cmp/number": ([], ["op:add"])}
     for key, body, A, B, exp in cm:
         R.guard(key, lambda key=key, body=body, A=A, B=B, exp=exp: K.cmp_table(R, key, body, A, B, exp, E, what="boundary", min_sites=1, arith=AR.get(key, ((), ()))))
 
